@@ -35,6 +35,7 @@ const (
 	symFirstMalformed
 	symFinalValid
 	symFinalOtherKey
+	symFinalTampered
 	symFinalEmptyState
 	symEmpty
 	symJunk
@@ -44,7 +45,7 @@ const (
 )
 
 var c15SymNames = []string{"server-first(valid)", "server-first(foreign nonce)", "server-first(malformed)", "server-final(valid)",
-	"server-final(other exchange/key)", "server-final(over empty state)", "empty challenge", "junk", "235", "535"}
+	"server-final(other exchange/key)", "server-final(valid prefix, tampered tail)", "server-final(over empty state)", "empty challenge", "junk", "235", "535"}
 
 const (
 	c15User = "scram,user=x"
@@ -65,7 +66,8 @@ type c15Server struct {
 	clientBare      string
 	cnonce          string
 	gs2             string
-	serverFirstSent string // the nonce-extending server-first of this exchange, if one was sent
+	serverFirstSent string // the server-first of this exchange that the client may answer (any variant)
+	firstExtends    bool   // whether it extends the client nonce (only then is the exchange legitimate)
 	firstAnswered   bool   // client-final received after it
 	clientFinalNoPf string
 	validSig        []byte // ServerSignature of this exchange (once client-final arrived)
@@ -94,7 +96,7 @@ const c15Iter = 64
 
 func (s *c15Server) resetExchange() {
 	s.haveClientFirst, s.clientBare, s.cnonce, s.gs2 = false, "", "", ""
-	s.serverFirstSent, s.firstAnswered, s.clientFinalNoPf = "", false, ""
+	s.serverFirstSent, s.firstAnswered, s.clientFinalNoPf, s.firstExtends = "", false, "", false
 	s.validSig, s.validSigShown = nil, false
 }
 
@@ -124,6 +126,9 @@ func (s *c15Server) observe(msg []byte) {
 				s.ackOfInvalid = c15SymNames[s.lastWasFinal]
 				if s.lastWasFinal == symFinalValid {
 					s.ackOfInvalid = "server-final(valid key, no running exchange)"
+					if s.firstAnswered && !s.firstExtends {
+						s.ackOfInvalid = "server-final(genuine signature over an exchange whose server nonce did not extend the client nonce)"
+					}
 				}
 			}
 		}
@@ -164,10 +169,10 @@ func (s *c15Server) emit(sym int) (challenge []byte, code int) {
 		}
 		sf := "r=" + s.cnonce + "SRVNONCE,s=" + b64(c15Salt) + fmt.Sprintf(",i=%d", c15Iter)
 		if s.serverFirstSent == "" {
-			s.serverFirstSent = sf
+			s.serverFirstSent, s.firstExtends = sf, true
 		} else {
-			// a second server-first inside one exchange is not a valid continuation
-			s.serverFirstSent, s.firstAnswered, s.validSig = sf, false, nil
+			// a repeated, nonce-extending server-first restarts the proof: the server still has to sign the new exchange
+			s.serverFirstSent, s.firstAnswered, s.validSig, s.firstExtends = sf, false, nil, true
 		}
 		return []byte(sf), 334
 	case symFirstForeignNonce:
@@ -175,13 +180,18 @@ func (s *c15Server) emit(sym int) (challenge []byte, code int) {
 		if len(s.cnonce) > 4 {
 			n = s.cnonce[:len(s.cnonce)-3] // truncated
 		}
-		return []byte("r=" + n + "XYZ9,s=" + b64(c15Salt) + ",i=64"), 334
+		sf := "r=" + n + "XYZ9,s=" + b64(c15Salt) + ",i=64"
+		// a client that (wrongly) answers this is then offered the genuine signature over that exchange
+		s.serverFirstSent, s.firstAnswered, s.validSig, s.firstExtends = sf, false, nil, false
+		return []byte(sf), 334
 	case symFirstMalformed:
 		return []byte("r=" + s.cnonce + "SRV,i=64"), 334
 	case symFinalValid:
 		s.lastWasFinal = symFinalValid
 		if s.firstAnswered && s.validSig != nil {
-			s.validSigShown = true
+			if s.firstExtends {
+				s.validSigShown = true
+			}
 			return []byte("v=" + b64(s.validSig)), 334
 		}
 		// no running exchange to sign: the best an honest key holder could do is sign what it has
@@ -193,6 +203,22 @@ func (s *c15Server) emit(sym int) (challenge []byte, code int) {
 		salted := sasl.PBKDF2(h, []byte("some other password"), c15Salt, c15Iter, h().Size())
 		sig := mac(h, mac(h, salted, []byte("Server Key")), []byte("n=other,r=abc,r=abcdef,s=c2FsdA==,i=64,c=biws,r=abcdef"))
 		return []byte("v=" + b64(sig)), 334
+	case symFinalTampered:
+		s.lastWasFinal = symFinalTampered
+		sig := []byte("0123456789abcdefghij")
+		if s.validSig != nil {
+			sig = append([]byte{}, s.validSig...)
+		}
+		e := []byte(b64(sig))
+		// keep the first characters, change the tail
+		for i := len(e) - 6; i < len(e)-1 && i >= 0; i++ {
+			if e[i] == 'A' {
+				e[i] = 'B'
+			} else {
+				e[i] = 'A'
+			}
+		}
+		return append([]byte("v="), e...), 334
 	case symFinalEmptyState:
 		s.lastWasFinal = symFinalEmptyState
 		sig := mac(h, mac(h, nil, []byte("Server Key")), nil)
@@ -322,6 +348,8 @@ func c15Exec(r *vf.Run, variant, maxLen int, c *vf.Chooser) (keys, whats []strin
 			switch x {
 			case symFinalOtherKey:
 				why = "forged-signature(other exchange/key)"
+			case symFinalTampered:
+				why = "forged-signature(tampered tail)"
 			case symFinalEmptyState:
 				why = "forged-signature(over empty state)"
 			case symFinalValid:
@@ -332,6 +360,9 @@ func c15Exec(r *vf.Run, variant, maxLen int, c *vf.Chooser) (keys, whats []strin
 		}
 		if srv.validSigShown {
 			why = "valid-signature-then-extra-steps"
+		}
+		if srv.firstAnswered && !srv.firstExtends {
+			why = "server-nonce-did-not-extend-client-nonce"
 		}
 		if len(srv.sent) == 1 {
 			why = "bare-235-as-first-server-message"
@@ -356,7 +387,7 @@ func init() {
 	vf.Register(&vf.Check{
 		ID: "C15", Title: "SCRAM authenticates the server",
 		Run: func(r *vf.Run) {
-			r.SetRule("every server message sequence up to length L over the 10-symbol alphabet {valid server-first, server-first with foreign/truncated nonce, malformed server-first, valid server-final, server-final of another exchange/key, server-final over empty state, empty challenge, junk, 235, 535}, chosen on the fly after each client message, through smtp.Client.Auth on the synchronous connection, for SCRAM-SHA-1/-256 and both PLUS variants; reference automaton decides which successes are legitimate; distinct by (variant, sequence)")
+			r.SetRule("every server message sequence up to length L over the 11-symbol alphabet {valid server-first, server-first with foreign/truncated nonce, malformed server-first, valid server-final (genuine signature over whatever exchange is running), server-final of another exchange/key, server-final with valid prefix and tampered tail, server-final over empty state, empty challenge, junk, 235, 535}, chosen on the fly after each client message, through smtp.Client.Auth on the synchronous connection, for SCRAM-SHA-1/-256 and both PLUS variants; reference automaton decides which successes are legitimate; distinct by (variant, sequence)")
 			r.Assume("PLUS variants run over a fabricated TLS 1.2 connection state (tls-unique); the real handshake is covered by C14", "password/user are ASCII")
 			maxLen := 5
 			if r.Thorough {
